@@ -273,6 +273,21 @@ namespace occa {
           }
           return false;
         }
+        // The update has to move the iterator towards its bound:
+        //   [it < N], [it <= N], [N > it], [N >= it] need [++, +=], the other forms need [--, -=]
+        const bool checkIsLessThan = (
+          checkOp->opType() & (operatorType::lessThan |
+                               operatorType::lessThanEq)
+        );
+        const bool iteratorIsBelowBound = (checkIsLessThan == checkValueOnRight);
+        if (iteratorIsBelowBound != positiveUpdate) {
+          if (printErrors) {
+            updateOp->startNode()->printError(sourceStr() + "Update moves ["
+                                              + iterator->name()
+                                              + "] away from the bound it is compared with");
+          }
+          return false;
+        }
         return true;
       }
 
